@@ -18,6 +18,7 @@
  *   newconn                           a second client connects while the first is still open
  *   hangup                            client closes the current connection
  *   paint <hexbyte> <n>               fill n bytes of (dead) stack with a byte before the next req
+ *   slowreq <hex>                     (harness only) request from a peer that never reads; virtual waiting
  */
 #define _GNU_SOURCE
 #include <dlfcn.h>
@@ -102,11 +103,18 @@ ssize_t read(int fd, void *buf, size_t count) {
 }
 
 static long long vwait_us = 0;
+static int virtual_wsel = 0, vsel_count = 0, vsel_fd = -1;
 int select(int nfds, fd_set *r, fd_set *w, fd_set *e, struct timeval *tv) {
   static int (*real)(int, fd_set *, fd_set *, fd_set *, struct timeval *);
   long long want = tv ? (long long)tv->tv_sec * 1000000 + tv->tv_usec : -1;
   int n;
   if (!real) real = (int (*)(int, fd_set *, fd_set *, fd_set *, struct timeval *))dlsym(RTLD_NEXT, "select");
+  /* virtual time for a peer that does not read: "wait until writable" on the HTTP socket times out at once */
+  if (virtual_wsel && w && !r && vsel_fd >= 0 && vsel_fd < nfds && FD_ISSET(vsel_fd, w) && want > 0) {
+    FD_ZERO(w); if (e) FD_ZERO(e);
+    vwait_us += want; vsel_count++;
+    return 0;
+  }
   n = real(nfds, r, w, e, tv);
   if (n == 0 && want > 0 && logging) vwait_us += want;
   return n;
@@ -365,6 +373,27 @@ int main(void) {
       printf(" peer=%s", full ? "-" : handed ? "open" : gone ? "eof" : "open");
       printf(" wait=%lld", vwait_us / 1000);
       if (hc >= 0 && (gone || handed)) { close(hc); hc = -1; for (i = 0; i < 3; i++) rfbProcessEvents(scr, 0); }
+      printf(" rfb=%s\n", witness_served() ? "ok" : "dead");
+    } else if (!strcmp(tok[0], "slowreq") && n == 2 && scr->httpDir) {
+      /* a peer that sends a request and never reads the answer; the server's send buffer is minimal.
+         Waiting is virtual (see select above): vstall = time rfbWriteExact would have slept. */
+      long len = vh_unhex(tok[1], reqbuf, sizeof reqbuf);
+      int i, one = 1;
+      if (len < 0) { puts("bad-op"); goto next; }
+      if (hc >= 0) { close(hc); hc = -1; for (i = 0; i < 2; i++) rfbProcessEvents(scr, 0); }
+      http_connect();
+      if (hc < 0 || scr->httpSock < 0) { puts("no-conn"); goto next; }
+      setsockopt(scr->httpSock, SOL_SOCKET, SO_SNDBUF, &one, sizeof one);
+      if (write(hc, reqbuf, (size_t)len) != len) { puts("short-write"); goto next; }
+      vwait_us = 0; vsel_count = 0; vsel_fd = scr->httpSock; virtual_wsel = 1; noplog = 0; logging = 1;
+      rfbProcessEvents(scr, 0);
+      logging = 0; virtual_wsel = 0; vsel_fd = -1;
+      for (i = 0; i < noplog; i++) free(oplog[i]);
+      printf("vstall=%lld sel=%d opened=%d conn=%s", vwait_us / 1000, vsel_count, noplog,
+             scr->httpSock == RFB_INVALID_SOCKET ? "closed" : "open");
+      noplog = 0;
+      close(hc); hc = -1;
+      for (i = 0; i < 2; i++) rfbProcessEvents(scr, 0);
       printf(" rfb=%s\n", witness_served() ? "ok" : "dead");
     } else if (!strcmp(tok[0], "newconn") && n == 1 && scr->httpDir) {
       int old = hc, gone, i;
